@@ -381,6 +381,7 @@ class Qubit:
         After freeing, the underlying physical qubit can be used to store another state.
         """
         self.builder._build_cmds_qfree(qubit_id=self.qubit_id)
+        self.active = False
 
 
 class FutureQubit(Qubit):
